@@ -6,6 +6,13 @@ pub mod types {
 pub mod lib {
     include!("../gen/lib.rs");
 }
+pub mod hist {
+    include!("../gen/hist.rs");
+}
+#[cfg(feature = "thorough")]
+pub mod hist_thorough {
+    include!("../gen/hist_thorough.rs");
+}
 #[cfg(feature = "thorough")]
 pub mod types_thorough {
     include!("../gen/types_thorough.rs");
